@@ -27,8 +27,12 @@ func main() {
 		expect  = flag.String("expect", "", "control mode: exit 0 iff some violated/undecided obligation has rule[/construct-substring] (comma list of rule:substr)")
 		listAll = flag.Bool("list", false, "list properties")
 		sigs    = flag.Bool("signatures", false, "print the extracted executor signatures (A6) and exit")
+		matrix  = flag.Bool("matrix", false, "development aid for sweeps over scratch copies: load the tree once, run the quick rule set of every property, print '<id>:FIRED' or '<id>:silent' per property (no evidence, no replay files); not used by any registered check")
 	)
 	flag.Parse()
+	if *matrix {
+		os.Exit(matrixMode(*repo, *verif, *goarch))
+	}
 	if *listAll {
 		for _, id := range sortedKeys(props) {
 			fmt.Println(id, props[id].Level)
@@ -337,4 +341,62 @@ func writeEvidence(c *Ctx, pi *propInfo, verif, tier string, seed, total, ndis, 
 		fmt.Fprintf(os.Stderr, "evidence: %v\n", err)
 		os.Exit(1)
 	}
+}
+
+// matrixMode runs every property's quick rule set on one load of the tree (sweeps over many scratch
+// copies: one load instead of twenty). Verdict per property = what the registered check would print.
+func matrixMode(repo, verif, goarch string) int {
+	verifRoot = verif
+	absRepo, _ := filepath.Abs(repo)
+	p, err := loadProgram(absRepo, goarch)
+	if err != nil {
+		fmt.Printf("ERROR %v\n", err)
+		return 2
+	}
+	kf, err := loadKnown(filepath.Join(verif, "known_findings.json"))
+	if err != nil {
+		fmt.Printf("ERROR %v\n", err)
+		return 2
+	}
+	var out []string
+	for _, id := range sortedKeys(props) {
+		pi := props[id]
+		c := newCtx(p, id, "quick")
+		runGuarded(c, pi)
+		for _, k := range sortedKeys(c.Floors) {
+			if c.Counts[k] < c.Floors[k] {
+				c.undecided("floor", k, "", "floor")
+			}
+		}
+		var fired []string
+		for _, o := range c.Obs {
+			if o.Status == stDischarged {
+				continue
+			}
+			known := false
+			for _, k := range kf.Findings {
+				if k.Status == "known" && k.Property == id && k.Rule == o.Rule && k.Construct == o.Construct && o.Status == stViolated {
+					known = true
+					break
+				}
+			}
+			if !known {
+				fired = append(fired, o.Rule)
+			}
+		}
+		if len(fired) > 0 {
+			sort.Strings(fired)
+			u := fired[:0]
+			for i, r := range fired {
+				if i == 0 || r != fired[i-1] {
+					u = append(u, r)
+				}
+			}
+			out = append(out, id+":FIRED("+strings.Join(u, ",")+")")
+		} else {
+			out = append(out, id+":silent")
+		}
+	}
+	fmt.Println(strings.Join(out, " "))
+	return 0
 }
